@@ -43,6 +43,12 @@ CLAIMED = {
     "C03": ("fault_enumeration", "property-based fault injection: value/shape edits over the serde tree of accepted proofs (plain + compressed), other-circuit verifier data; oracle = verifier must not accept",
             "For each generated accepted proof, sampled (quick) or all (thorough, proofs up to 12k leaves) element positions are edited (+1, -1, 0, random canonical value), every container is shape-edited, and a different circuit's verifier data is presented; acceptance of any of these is a violation. Exhaustive per proof in thorough mode, sampled over proofs.",
             "Rejections that rely on Fiat-Shamir re-randomisation are asserted only with >= 48 bits of FRI margin; edits of the compressed proof's redundant index list are exempt as the statement says.", "§C03"),
+    "C10": ("fault_enumeration", "property-based testing of STARK lookups and cross-table lookups: generated lookup declarations / CTL topologies with traces built by construction, own multiset (logUp balance) oracle, single-value corruptions and forged auxiliary columns through the real prover",
+            "Generated single-table STARKs with 1-2 Lookups (1-5 looking columns: single, scaled, linear combination, next-row; filters; degree 2 and 3) and 2-3-table systems with 1-2 cross-table lookups rebuilt from the public pipeline functions; positives must prove and verify; each single-value change of a looking value, table value, frequency, filter bit or extra value is judged by the harness's own multiset comparison (changes that preserve the multisets must still verify), and perturbed / forged helper and running-sum columns must be rejected.",
+            "Cross-table systems use declared degree 3 (degree 2 rejects honest proofs: completeness observation, DESIGN §7); table/frequency columns current-row; same-table looking entries adjacent (preconditions of the API as used by its known consumer).", "§C10"),
+    "C11": ("exploration", "differential property testing: native STARK verifier vs. in-circuit STARK verifier (library assignment + witness generation + O-sat) in fixed- and multi-degree mode, over generated STARKs and honest / edited / false / badly ground proofs",
+            "For each generated STARK definition and config one outer circuit (fixed degree or sized for a maximum degree) is built and fed many proofs: honest proofs of every supported length, value edits in every component class, wrong public inputs, proofs of violating traces, perturbed quotient/auxiliary polynomials, ground final-polynomial and proof-of-work deviations, wrong degree_bits. Native verdict and circuit verdict must be equal; on a sample of rejected cases the real outer prover is run and must not yield an accepted proof.",
+            "Shape-edited proofs are outside the stated quantifier (the assignment routines zero-pad by design for the multi-degree mode); differences there are reported in the evidence, not asserted. Poseidon inner config.", "§C11"),
     "C12": ("exploration", "model-based property testing: independent reference Merkle tree / batch tree / path-compression models, negative catalogue, rayon pools of 1/2/3/16 threads",
             "Tens of thousands of generated trees (Poseidon and Keccak, all cap heights, leaf widths around the digest size, duplicate leaves, batch trees of 1-4 heights, index multisets) compared with a textbook reference; every negative (other leaf/index, altered sibling or cap entry, malformed path) must give the reference verdict; construction repeated under different thread counts.",
             "hash_or_noop/two_to_one are taken from the library (judged by C13); scheduling is varied by pool size and repetition only.", "§C12"),
